@@ -44,6 +44,7 @@ def osCmd (cmd : String) (a : Args) : Option String :=
     let fs := runFs (fsInit oldF bufs) acts
     let left := (fs.tmps.filter (·.isSome)).length
     pure s!"target={fileStr fs.target} tmps={left} pcs={String.intercalate "," (fs.ws.map fun w => pcStr w.pc)}"
+  | "note" => some "ok"     -- a harness annotation (monitor-only case); nothing to compare
   | "resfn" =>
     -- the model's claim for every scenario of the fault enumeration (theorem C19.no_leak): once the
     -- function has returned and its closer has run, sockets are balanced and no goroutine is left
